@@ -322,7 +322,7 @@ func runPage(c *core.Ctx) {
 							page := elems[0]
 							good := false
 							for _, g := range an.GuardingEdges(cc.Block()) {
-								x, y, op, ok := an.CmpTest(an.BlockIf(g.From))
+								x, y, op, ok := an.CmpTest(g.If())
 								if !ok {
 									continue
 								}
@@ -378,7 +378,7 @@ func runPage(c *core.Ctx) {
 				pred := phi.Block().Preds[i]
 				guards := an.GuardingEdges(pred)
 				for _, g := range guards {
-					x, y, op, ok := an.CmpTest(an.BlockIf(g.From))
+					x, y, op, ok := an.CmpTest(g.If())
 					if !ok {
 						continue
 					}
@@ -620,13 +620,22 @@ func triggerOf(c *core.Ctx, r *Roles, b *ssa.BasicBlock) string {
 		return ""
 	}
 	// innermost: the guard whose block is dominated by all the others
-	in := guards[0]
-	for _, g := range guards[1:] {
+	var real []an.Edge
+	for _, g := range guards {
+		if !g.Synthetic() {
+			real = append(real, g)
+		}
+	}
+	if len(real) == 0 {
+		return ""
+	}
+	in := real[0]
+	for _, g := range real[1:] {
 		if in.From.Dominates(g.From) {
 			in = g
 		}
 	}
-	ifi := an.BlockIf(in.From)
+	ifi := in.If()
 	calleeName := func(call *ssa.Call) string {
 		if call == nil {
 			return "?"
